@@ -58,7 +58,7 @@ ArgOf(n) ==
     [] n = "setgid" -> Traces[t].req.gid
     [] n = "setuid" -> Traces[t].req.uid
     [] OTHER -> 0
-Matches(n, e) == e.n \in EvOf(n) /\ (ArgOf(n) # 0 => e.v = ArgOf(n)) /\ (e.ok \/ ~Fallible(n))
+Matches(n, e) == e.n \in EvOf(n) /\ (ArgOf(n) # 0 => e.v = ArgOf(n))
 
 TInit ==
   /\ t \in 1..N /\ lc = 1 /\ lp = 1
@@ -69,13 +69,24 @@ TInit ==
   /\ c2p = <<>> /\ p2c = <<>> /\ pend = TRUE /\ cend = TRUE
   /\ cbn = 0 /\ execed = FALSE /\ reaped = FALSE /\ ret = NoRet
 
-\* a child syscall
+\* a child syscall: a successful one is the step's normal branch, a failed one of a fallible step is
+\* the step's failure branch (the child reports and exits), a failed one of a step whose result the
+\* code ignores is the normal branch
 TChild ==
   /\ lc <= Len(CLog) /\ cstat = "alive"
   /\ Matches(Cur, CLog[lc])
-  /\ \/ Cur \in Multi /\ UNCHANGED vars
-     \/ Cur \notin Multi /\ Child
+  /\ LET good == CLog[lc].ok \/ ~Fallible(Cur) IN
+     \/ good /\ Cur \in Multi /\ UNCHANGED vars
+     \/ /\ good /\ Cur \notin Multi /\ Child /\ fail' = fail
+        /\ IF Cur \in {"syncA_read", "syncB_read"} THEN (cstat' = "zombie") <=> (CLog[lc].v = 0)   \* EOF: parent refused
+           ELSE IF Cur = "userns_read" THEN TRUE                \* dies iff the parent's word is an errno
+           ELSE cstat' # "zombie"
+     \/ ~good /\ Child /\ cstat' = "zombie"
   /\ lc' = lc + 1 /\ UNCHANGED <<t, lp>>
+\* childExitError's write of the error record (part of the atomic ChildDie in the model)
+TChildTail ==
+  /\ lc <= Len(CLog) /\ cstat \in {"zombie", "gone"} /\ CLog[lc].n = "write"
+  /\ lc' = lc + 1 /\ UNCHANGED <<vars, t, lp>>
 \* leaving a variable-length step consumes nothing
 TChildSilent ==
   /\ cstat = "alive" /\ Cur \in Multi /\ CLocal
@@ -92,12 +103,17 @@ PEv(a) ==
 TParent ==
   /\ lp <= Len(PLog) /\ PLog[lp].n = PEv(ppc)
   /\ Parent
+  /\ (ppc \in {"clone", "idmap"} => (PLog[lp].ok <=> fail' = fail))
   /\ lp' = lp + 1 /\ UNCHANGED <<t, lc>>
+\* Start closes p[1] before it looks at the clone result (fork_linux.go:72)
+TParentTail ==
+  /\ lp <= Len(PLog) /\ ppc = "done" /\ ret.loc = "clone" /\ PLog[lp].n = "close_p1"
+  /\ lp' = lp + 1 /\ UNCHANGED <<vars, t, lc>>
 TParentSilent ==
   /\ ppc \in {"post_sync", "fail", "ret"} /\ Parent
   /\ UNCHANGED <<t, lc, lp>>
 
-TNext == TChild \/ TChildSilent \/ TResume \/ TParent \/ TParentSilent
+TNext == TChild \/ TChildTail \/ TChildSilent \/ TResume \/ TParent \/ TParentTail \/ TParentSilent
 TSpec == TInit /\ [][TNext]_tvars
 
 Consumed == (lc - 1) + (lp - 1)
